@@ -39,6 +39,7 @@ CFG = {
     },
     "gaps": [
         "the inner 32-bit iterators are the mirrored bitmap::Iter / bitmap::IntoIter model (Inner.iter32, Iter.lean); InnerSpec.iter32 (Lemmas/TreemapIter32.lean) proves the C03 cursor laws for it from C03_init / C03_step, so C12_init, C12_step, C12_sizeHint, C12_history, C12_intoIter are unconditional for every treemap whose partitions are Bitmap.WF (TWF); the C12_*_partial forms (every inner cursor K with an InnerSpec K) are kept",
+        "model fidelity (notes/fidelity-treemap.md): treemap::Iter (next / next_back with the unrolled self.next() recursion and the front/back hand-over, advance_to / advance_back_to, size_hint) and BitmapIter (advance_to / advance_back_to re-slicing of the whole map, remaining, next / next_back) are mirrored. Closed: treemap::IntoIter::fold / rfold (iter.rs:328/344 = FlattenCompat::fold over To64IntoIter::fold over the 32-bit IntoIter::fold, values rebuilt with +) were run as next()-loops; now TIter.IntoIter.fold / rfold with IntoIter.fold_spec / rfold_spec / fold_mirror_eq / rfold_mirror_eq (Lemmas/TreemapIterFold.lean) and C12_intoIter_fold(_new); ExactSizeIterator::len of IntoIter (size_hint as usize) is TIter.IntoIter.exactLen (exactLen_eq / exactLen_spec); ExactSizeIterator::len of the borrowing Iter is now exercised (jlen; the harness used to print na); after jfold / jrfold the driver empties the slot like the harness. Not modelled: To64Iter::fold / rfold (dead code: treemap::Iter does not override fold), BitmapIter::size_hint (std Range::size_hint, no op)",
         "size_hint exactness is stated under 'remaining count <= usize::MAX' (saturating_add / the IntoIter `< usize::MAX` test)",
     ],
     "assumptions": [
